@@ -93,3 +93,36 @@ def run_rule(ctx, repo):
     ctx.check(not bad, "C06.schedule", "TDS.do_switch/pointer", "after the schedule is rebuilt the event pointer is re-positioned before it is read",
               "do_switch rebuilds `switch_times` (refresh_event) and then reads `self._switch_idx` (L%s) that still refers to the previous array"
               % (ds.g.line(bad[0]) if bad else ""), ds.W(bad[0]) if bad else ds.W())
+
+
+def owners_rule(ctx, repo):
+    """who may write the schedule: `switch_times`, `switch_dict` and `n_switches` are written by System.__init__ and
+    System.store_switch_times only (every event time >= the current time is in the schedule; a routine that trims or edits it -- e.g. to the
+    end time known at initialisation -- loses the events of a later resumed segment)."""
+    attrs = ("switch_times", "switch_dict", "n_switches")
+    bad = []
+    for cname, cl in repo.classes.items():
+        for ci in cl:
+            for mname, fn in ci.methods.items():
+                if ci.name == "System" and mname in ("__init__", "store_switch_times"):
+                    continue
+                for st in walk_noscope(fn):
+                    tg = st.targets if isinstance(st, ast.Assign) else ([st.target] if isinstance(st, ast.AugAssign) else [])
+                    for t in tg:
+                        base = t.value if isinstance(t, ast.Subscript) else t
+                        if isinstance(base, ast.Attribute) and base.attr in attrs and (dotted(base) or "").split(".")[0] in ("self", "system"):
+                            d = dotted(base) or ""
+                            if "system" in d or ci.name == "System":
+                                bad.append((ci, mname, st))
+    for rel, fns in repo.funcs.items():
+        for name, fn in fns.items():
+            for st in walk_noscope(fn):
+                tg = st.targets if isinstance(st, ast.Assign) else ([st.target] if isinstance(st, ast.AugAssign) else [])
+                for t in tg:
+                    base = t.value if isinstance(t, ast.Subscript) else t
+                    if isinstance(base, ast.Attribute) and base.attr in attrs and "system" in (dotted(base) or ""):
+                        bad.append((rel, name, st))
+    ctx.check(not bad, "C06.schedule", "schedule/writers", "switch_times / switch_dict / n_switches are written only by System.store_switch_times",
+              "; ".join("`%s` in %s.%s" % (src(st)[:70], getattr(ci, "name", ci), m) for ci, m, st in bad[:2]) +
+              " -- the schedule is edited outside the function that builds it: events it drops never fire in a later segment",
+              repo.W(bad[0][0], bad[0][2]) if bad and not isinstance(bad[0][0], str) else "")
